@@ -232,8 +232,8 @@ class Fill(Doc):
         propagate_broken = False
         for doc in self.docs:
             if isinstance(doc, AlwaysBreak):
+                # The item stays wrapped so that it is laid out broken.
                 propagate_broken = True
-                doc = doc.doc
 
             if doc is NIL:
                 continue
